@@ -176,8 +176,11 @@ CLAIMS.update({
         "text": "Sampling arithmetic written from rounding.txt: repeat() for NONE/PAD (all inputs) and NORMAL range+termination (loop "
                 "contracts), nearest = floor(x - e) then the repeat map and bilinear neighbours/weights from x - 1/2 (argument level, all "
                 "positions), 7-bit bilinear weights, convolution tap alignment/rounding/clamping of the signed sum, affine stepping and the "
-                "signed projective quotient; wide fetchers never skip a pixel with a non-zero mask. Three defects found here were repaired "
-                "by fix: commits (unsigned convolution totals, unsigned projective division, wide mask test).",
+                "signed projective quotient; wide fetchers never skip a pixel with a non-zero mask; the specialised C fast-path fetchers "
+                "(nearest/bilinear/separable-convolution affine for every repeat mode x format instance and their fast_iters[] table "
+                "bindings, r5g6b5 fetch/write-back, bilinear cover iterator) against the same reference on a symbolic 4x3 source; "
+                "pad_repeat_get_scanline_bounds; transform-class flags only for matrices of that class. Defects found here were repaired "
+                "by fix: commits (unsigned convolution totals, unsigned projective division, wide mask test, two signed-shift UBs).",
         "note": "Bounded: NORMAL congruence |c| <= 4 size, REFLECT/MOD per fixed size, bilinear blend per fixed weight pair, 1x1 kernels only, "
                 "scanline width <= 3, projective quotient at reduced operand width. repeat() and bilinear_interpolation are uninterpreted "
                 "stand-ins inside the fetch jobs. Scaled fast paths, SSE2/SSSE3 fetchers, float fetchers: not covered. Known finding: left "
